@@ -235,6 +235,25 @@ def always_prog():
     }
 
 
+def always2():
+    """two redo-always targets: t1 requested by two dependents (the second request finds //ALWAYS already checked in this
+    run), t2 requested after that by a third"""
+    return {
+        'name': 'always2',
+        'plain': ['s', 't1', 't2', 'a', 'b', 'c', 'all'],
+        'rules': {'t1.do': [{'t1': [always(), out('stdout', 's')]}],
+                  't2.do': [{'t2': [always(), out('stdout', 's')]}],
+                  'a.do': [{'a': [ifchange('t1'), out('stdout', 't1')]}],
+                  'b.do': [{'b': [ifchange('t1'), out('file', 't1')]}],
+                  'c.do': [{'c': [ifchange('t2'), out('stdout', 't2')]}],
+                  'all.do': [{'all': [ifchange('a', 'b', 'c'), out('stdout', 'a', 'b', 'c')]}]},
+        'init': ['s', 't1.do', 't2.do', 'a.do', 'b.do', 'c.do', 'all.do'],
+        'cmds': [('ifchange', ['all'], False)],
+        'user': ['s'], 'rm': [], 'doedits': [],
+        'bounds': (3, 3),
+    }
+
+
 def default_prog():
     """x.o built by default.o.do or, when added, x.o.do; default.do as last resort"""
     return {
@@ -620,7 +639,7 @@ def crash_family(window=False, stamp_window=False):
     return out_
 
 
-FAMILY_DEEP = [fail_diamond, override2, stamp_toggle, stamped_deep, ifcreate_deep, do_recreate, subdirs, fan_shared, fail_memo]
+FAMILY_DEEP = [always2, fail_diamond, override2, stamp_toggle, stamped_deep, ifcreate_deep, do_recreate, subdirs, fan_shared, fail_memo]
 
 
 def deep_programs():
